@@ -40,8 +40,8 @@ pub fn line(t: &mut Tape, lines: &[&str]) -> String {
 
 /// two different file names of the language (same extension / same whole name in other dirs)
 pub fn two_names(t: &mut Tape, lang: &str) -> (String, String) {
-    let stems = ["main", "util", "foo_bar", "x", "Config", "a-b", "módulo", "v2.test"];
-    let dirs = ["", "src/", "lib/deep/dir/", "a b/", "ünï/"];
+    let stems = ["main", "util", "foo_bar", "x", "Config", "a-b", "módulo", "v2.test", "report (1)", "notes (old)"];
+    let dirs = ["", "src/", "lib/deep/dir/", "a b/", "ünï/", "docs (draft)/"];
     if lang == "Makefile" && t.coin() {
         // an extension-less name and a name with the language's extension
         let d1 = dirs[t.below(dirs.len())];
